@@ -199,7 +199,9 @@ func c11Build(t c11Tmpl, sh c11Shape, sit int, val c11Val, base PointSpec) (*Pro
 	}
 	body := t.Build(sh.Arg)
 	tail := rt.Call("p", rt.Call("get_key", rt.Str(sh.Key)), rt.Call("get_key", rt.Id("o1")), rt.Call("get_key", rt.Id("dst")))
-	stmts := append(append(pre, body...), tail)
+	// the same key read in a plain expression directly after the builtin (no call in between), then probed
+	plain := rt.Assign("=", rt.Id("rb"), rt.QId(sh.Key))
+	stmts := append(append(pre, body...), plain, tail, rt.Call("p", rt.Id("rb")))
 	return &Prog{Scripts: map[string][]*rt.Node{"s.p": stmts}, Main: "s.p", Point: pt, Capture: true}, true
 }
 
@@ -283,7 +285,7 @@ func init() {
 		Rule: "45 call templates of the 15 builtins (every optional argument present/absent, identifier/attribute/string/expression arguments, all cast types, good and bad regular expressions, format strings with matching and mismatching verbs) " +
 			"x 6 key spellings (identifier, back-quoted, string literal, `_`, attribute expression, attribute expression with an index) x 6 subject situations (variable only, field only, tag only, variable shadowing a field, variable shadowing a tag, absent) " +
 			"x 24 subject values (int, float, bool, plain/padded/url-encoded/'+' without '%'/trailing '%'/percent-encoded UTF-8/undecodable/JSON/JSON with trailing text/numeric/float/bool/non-ASCII/tab+newline/regex-special/empty strings, list, map, nil) x 3 base points; " +
-			"oracle: the whole canonical final point (so every other key is checked untouched), captured standard output, probe trace of return values and of three read-backs, error flag — all equal to the reference builtins",
+			"oracle: the whole canonical final point (so every other key is checked untouched), captured standard output, probe trace of return values, of a plain-expression read of the subject key directly after the builtin and of three get_key read-backs, error flag — all equal to the reference builtins",
 		Assumptions: []string{"strings, regexp, net/url, fmt, encoding/json and spf13/cast are the trusted base the reference shares with the code", "unspecified cells: cast of collections / non-numeric strings, cast to \"string\", rename onto an existing key, set_tag from a construct without value"},
 		Run:            c11Run,
 		Replay:         c11Replay,
